@@ -104,7 +104,7 @@ pub fn worker(tier: &str, seed: u64, from: u64, to: u64, extra: &[String]) -> Ag
                 agg.count("worker_panics", out.trace.worker_panics.len() as u64);
                 agg.count(&format!("policy:{}", if sequential { "sequential" } else { g.policy_name }), 1);
                 agg.distinct.insert(out.trace.sched_sig);
-                let nontrivial = out.trace.probes.iter().any(|(k, v)| *v > 0 && (k.starts_with("notification-while") || k.starts_with("exit-while") || k.starts_with("client-crash") || k.starts_with("new-key"))) || out.trace.sent.iter().any(|x| !x.fault.is_empty());
+                let nontrivial = out.trace.probes.iter().any(|(k, v)| *v > 0 && (k.starts_with("notification-while") || k.starts_with("exit-while") || k.starts_with("client-crash") || k.starts_with("new-key"))) || out.trace.sent.iter().any(|x| !x.fault.is_empty() && x.fault != "final-shutdown");
                 if nontrivial {
                     agg.distinct_nontrivial.insert(out.trace.sched_sig);
                 }
@@ -113,7 +113,7 @@ pub fn worker(tier: &str, seed: u64, from: u64, to: u64, extra: &[String]) -> Ag
                     agg.probe(k, *v);
                 }
                 for x in &out.trace.sent {
-                    if !x.fault.is_empty() && !x.fault.starts_with("probe-after") {
+                    if !x.fault.is_empty() && !x.fault.starts_with("probe-after") && x.fault != "final-shutdown" {
                         agg.fault(&x.fault, 1);
                     }
                 }
@@ -342,8 +342,16 @@ pub fn check(property: &str, tier: &str, started: Instant) -> i32 {
             known_seen.push(f.signature.clone());
             continue;
         }
-        violations += 1;
         let case: Case = serde_json::from_value(f.case.clone()).expect("case");
+        if f.signature.starts_with("deadlock") || f.signature.starts_with("exit_hang") {
+            // a watchdog verdict rests on real time: it counts only if it shows again when replayed
+            let again = matches!(replay_case(f.seed, &case), Ok(out) if sig_of(&out.violations, property, &f.signature));
+            if !again {
+                println!("NOTE: watchdog verdict {} of run {} did not show again on replay; not reported", f.signature, f.run);
+                continue;
+            }
+        }
+        violations += 1;
         let (mcase, evals, minimised) = if minimise_left > 0 && started.elapsed().as_secs() < min_deadline {
             minimise_left -= 1;
             // every evaluation of a hanging case costs a watchdog period and leaves a spinning thread behind
